@@ -138,11 +138,11 @@ def UniqueNames (t : NT) : Prop := t.names.Nodup
 instance (t : NT) : Decidable (UniqueNames t) := inferInstanceAs (Decidable (List.Nodup _))
 
 /-- Letters, digits, underscore. -/
-def safeChar (c : Char) : Bool := c.isAlphanum || c == '_'
+def safeChar (c : Char) : Bool := c.isAlphanum || c == '_' || c == '.' || c == '-'
 
 def safeStr (s : String) : Bool := !s.toList.isEmpty && s.toList.all safeChar
 
-/-- Every name is a non-empty word over `[A-Za-z0-9_]`, and so is every colour
+/-- Every name is a non-empty word over `[A-Za-z0-9_.-]`, and so is every colour
     feature that is present. -/
 def SafeNames (t : NT) : Prop :=
   ∀ x ∈ t.pre, safeStr x.2.name = true ∧ ∀ c, x.2.color = some c → safeStr c = true
